@@ -82,7 +82,7 @@ class Gen:
         return out
 
 
-def render(prog, deallocs):
+def render(prog, deallocs, diamond=None):
     L = []
     n = [0]
 
@@ -129,6 +129,16 @@ def render(prog, deallocs):
                 L.append(P + "}")
 
     emit(prog, 2)
+    if diamond is not None:
+        # a function body of several blocks: ^bb0 (the statements above) branches to ^bb1 or ^bb2, both continue at ^bb3
+        cnd, then_s, else_s, tail_s = diamond
+        L.append(f"    cf.cond_br %c{cnd}, ^bb1, ^bb2")
+        for lbl, st in (("^bb1", then_s), ("^bb2", else_s)):
+            L.append(f"  {lbl}:")
+            emit(st, 2)
+            L.append("    cf.br ^bb3")
+        L.append("  ^bb3:")
+        emit(tail_s, 2)
     de = "\n".join(f'    "memref.dealloc"(%a{i}) {{tag = {900 + i} : i32}} : ({T8}) -> ()' for i in deallocs)
     return f"""
 builtin.module {{
@@ -224,8 +234,8 @@ def case_prog(case, K=2):
     from snaxc.transforms.dispatch_regions import DispatchRegions
     from snaxc.transforms.insert_sync_barrier import InsertSyncBarrier
 
-    prog, deallocs = case
-    src = render(prog, deallocs)
+    prog, deallocs = case[:2]
+    src = render(prog, deallocs, case[2] if len(case) > 2 else None)
 
     def fn():
         E = eng()
@@ -297,7 +307,7 @@ def case_prog(case, K=2):
             tags.append(info["values"])
         return f["name"] + ("|" + "+".join(tags) if tags else "")
 
-    return run_case(fn, replay, signature=sig, sample=dict(program=str(prog)[:300], deallocs=deallocs), key=str(case), max_paths=200)
+    return run_case(fn, replay, signature=sig, sample=dict(program=str(prog)[:300], deallocs=deallocs, blocks=4 if len(case) > 2 else 1), key=str(case), max_paths=200)
 
 
 def run(chk):
@@ -345,6 +355,11 @@ def run(chk):
         if len(views) != g.nview and tries % 7 != 3:
             continue
         de = tuple(i for i in range(3) if rnd.random() < 0.3)
+        if tries % 7 == 5:
+            # multi-block function: producer in the entry block, consumers in the two successor blocks and behind the join
+            flat = lambda n_: [s_ for s_ in g.block(0, n_) if s_[0] != "view"]
+            cases.append(([s_ for s_ in prog if s_[0] == "view"] + [s_ for s_ in prog if s_[0] != "view"][:3], de, (rnd.randrange(2), flat(rnd.randint(1, 2)), flat(rnd.randint(0, 2)), flat(rnd.randint(0, 2)))))
+            continue
         cases.append((prog, de))
     chk.add_results("races_and_barrier_counts", pmap(case_prog, cases, chunks=4))
     chk.bounds = dict(programs=len(cases), nesting="<=2 (+ a family with sibling inner loops / conditionals in one outer loop)", unroll_K=2, buffers="2 arguments + 3 allocations (i32), 1 argument + 2 allocations (i8), <=3 subviews with offsets in {0,4,symbolic 0..4}")
